@@ -19,7 +19,8 @@ fn compiler(slot: u64, timestamp: u128) -> tx3_cardano::Compiler {
             min_fee_coefficient: 44,
             min_fee_constant: 155381,
             coins_per_utxo_byte: 4310,
-            cost_models: Default::default(),
+            // placeholder cost models: only their presence matters to the checks that use this binary
+            cost_models: [(0u8, vec![1i64, 2, 3]), (1, vec![1, 2, 3]), (2, vec![1, 2, 3])].into_iter().collect(),
         },
         tx3_cardano::Config { extra_fees: None },
         tx3_cardano::ChainPoint { slot, hash: vec![], timestamp },
